@@ -22,9 +22,9 @@ package templater
 //@ func ReplaceWithExtra
 //@   modifies heap
 //@   preserves $RUNDATA
-//@   site maps.Clone#1 requires arg0 == cache.cacheMap                                                         [C02,C11,C14]
-//@   site maps.Copy#1 requires arg0 != cache.cacheMap                                                          [C02,C11,C14]
-//@   site maps.Copy#1 requires arg1 == extra     -- the extras (ITEM, KEY, EXIT_CODE) are laid OVER the variables: they win   [C02,C14]
+//@   site maps.Clone#0 requires arg0 == cache.cacheMap                                                         [C02,C11,C14]
+//@   site maps.Copy#0 requires arg0 != cache.cacheMap                                                          [C02,C11,C14]
+//@   site maps.Copy#0 requires arg1 == extra     -- the extras (ITEM, KEY, EXIT_CODE) are laid OVER the variables: they win   [C02,C14]
 // C19: the template engine sees a text ONCE. Its output - which contains the values that were substituted (the
 // arguments after --, shell-quoted values) - is data: it is never parsed as a template again
 //@   init nTrav := 0
@@ -72,6 +72,6 @@ package templater
 //@   site ast.NewVars#1 ghost builtVars := result
 //@   ensures vars != nil ==> result == builtVars                                                               [C02,C10]
 //@ func ReplaceVarsWithExtra$1
-//@   site ReplaceVarWithExtra#1 requires arg0 == v && arg1 == cache && arg2 == extra                           [C02,C10]
-//@   site (*Vars).Set#1 requires arg0 == newVars && arg1 == k                                                  [C02,C10]
+//@   site ReplaceVarWithExtra#0 requires arg0 == v && arg1 == cache && arg2 == extra                           [C02,C10]
+//@   site (*Vars).Set#0 requires arg0 == newVars && arg1 == k                                                  [C02,C10]
 //@   modifies heap, om_has, om_val, om_len, om_key
